@@ -24,7 +24,10 @@ def st_case(elem_names, tier, max_tokens=24, min_tokens=0, long_stalls=False):
         if long_stalls and draw(st.booleans()):
             cs = ["pre", draw(st.integers(0, 6)), 1, ["rle", [[0, draw(st.integers(2, 12))], [1, draw(st.integers(1, 3))]] * 2]]
         g = draw(st.one_of(st.none(), st.integers(0, 2 ** 16)))
-        return {"elem": name, "p": p, "toks": toks, "ps": ps, "cs": cs, "g": g}
+        # a consumer whose ready answers valid (raised the cycle after it sees valid, dropped again after the handshake): an element
+        # must never wait for ready before it raises valid
+        wv = draw(st.integers(0, 3)) == 0
+        return {"elem": name, "p": p, "toks": toks, "ps": ps, "cs": cs, "g": g, "wv": wv}
     return case()
 
 
@@ -61,7 +64,7 @@ def run_case(case, coop_cycles=0, endless=False):
             return (tuple(((i * 7 + 3 * k + 1) & ((1 << w) - 1)) for k, w in enumerate(pw)),
                     tuple(((i * 3 + k) & ((1 << w) - 1)) for k, w in enumerate(qw)), 0, 0)
     prod = bench.Producer(dut.sink, toks, case["ps"], garbage_seed=case["g"], until=main, endless=None)
-    cons = bench.Consumer(dut.source, case["cs"], until=main)
+    cons = bench.Consumer(dut.source, case["cs"], until=main, wait_valid=bool(case.get("wv")))
     sink_mon = bench.Probe([dut.sink.valid, dut.sink.ready])
     quiet = {"n": 0, "last_got": 0, "last_sent": 0}
     slow = getattr(e, "slow", None)
